@@ -441,7 +441,9 @@ class HistGen:
                                       kind="base-class-reusing-rejected-symbol", new_cls=name,
                                       new_sym=sym))
         if rng.random() < .5:
-            steps.append(self.base_class(quantum=rng.choice([Fraction(1, 8), Fraction(1, 100), Fraction(1, 3), Fraction(5, 8)])))
+            steps.append(self.base_class(quantum=rng.choice([
+                Fraction(1, 8), Fraction(1, 100), Fraction(1, 3), Fraction(5, 8),
+                Fraction(6), Fraction(5, 2), Fraction(2, 3), Fraction(1, 20)])))
         while len(steps) < length:
             r = rng.random()
             st = None
